@@ -29,7 +29,7 @@ RULE = ("calendar: every hour of 2020 (leap) and 2021 in the listed timezones x 
 ASSUMPTIONS = ["an hour's month is its local calendar month in the index's timezone",
                "bin 0 is 'filled' with min(T, first endpoint) (it is unbounded below), the last bin with max(T - last endpoint, 0)"]
 REQUIRED_REACH = {"post.segment_time_series": 40, "post.bin_features": 64, "post.time_features": 10, "post.occupancy_feature": 10,
-                  "post.prediction_feature_processor": 90, "boundary.routing": 8, "clause.partition_rows": 100000,
+                  "post.prediction_feature_processor": 90, "boundary.routing": 8, "boundary.routing_partial_model": 8, "clause.partition_rows": 100000,
                   "clause.bin_cells": 10000, "clause.how_values_168": 1}
 REQUIRED_REACH_THOROUGH = {"post.fit_feature_processor": 12, "boundary.real_fit_routing": 1, "repo_tests.post.segment_time_series": 5, "repo_tests.post.bin_features": 5}
 ENDPOINTS = [30, 45, 55, 65, 75, 90]
@@ -247,7 +247,7 @@ def setup_worker():
 
 
 # ---------------------------------------------------------------------------------------------------
-def handbuilt(rng, segment_type="three_month_weighted"):
+def handbuilt(rng, segment_type="three_month_weighted", drop=()):
     from opendsm.eemeter.models.hourly_caltrack.model import CalTRACKHourlyModel
     from opendsm.eemeter.models.hourly_caltrack.segmentation import CalTRACKSegmentModel
     names = [w + "-weighted" for w in W3] if segment_type == "three_month_weighted" else ["all"]
@@ -263,6 +263,8 @@ def handbuilt(rng, segment_type="three_month_weighted"):
         for i in range(nu):
             params["bin_%d_unoccupied" % i] = 1e-3
         f = "meter_value ~ C(hour_of_week) - 1" + "".join(" + bin_%d_occupied" % i for i in range(no)) + "".join(" + bin_%d_unoccupied" % i for i in range(nu))
+        if k + 1 in drop:
+            continue                      # a model that holds only some of the month segments
         sms.append(CalTRACKSegmentModel(n, None, f, params))
     return CalTRACKHourlyModel(sms, occ, ob, ub, segment_type)
 
@@ -302,6 +304,24 @@ def calendar_case(spec, keys):
         if (np.abs(frac - T.to_numpy()[ok] / 1000.0) > 1e-9).any():
             add("routing-bin-sum", "bin features seen by the month model do not sum to the temperature", tz=tz)
         keys.add("route|%s|%d" % (tz, year))
+        # ---- a model that holds only some month segments: the hours of a month without a model are predicted by nobody ----
+        drop = set(int(x) for x in rng.choice(np.arange(1, 13), size=int(rng.integers(2, 6)), replace=False))
+        m2 = handbuilt(rng, drop=drop)
+        p2 = m2.predict(idx, T).result["predicted_usage"].reindex(idx)
+        y2 = p2.to_numpy(dtype=float)
+        own_missing = np.isin(f[:, 0], sorted(drop))
+        I.reach("boundary.routing_partial_model")
+        if (~np.isnan(y2[own_missing])).any():
+            i = int(np.argmax(own_missing & ~np.isnan(y2)))
+            add("hour-predicted-although-its-month-has-no-model", "%d hours of months %s (no month model) carry a prediction; e.g. %s -> %r" % (
+                int((~np.isnan(y2[own_missing])).sum()), sorted(drop), idx[i], y2[i]), tz=tz)
+        ok2 = ~own_missing
+        if np.isnan(y2[ok2]).any():
+            add("routing-unpredicted-hour", "partial model: %d hours of months that do have a model are not predicted" % int(np.isnan(y2[ok2]).sum()), tz=tz)
+        else:
+            r2 = np.round(y2[ok2] - T.to_numpy()[ok2] / 1000.0)
+            if not np.array_equal((r2 // 1000).astype(int), f[ok2, 0]):
+                add("routing-wrong-month-model", "partial model: an hour was predicted by another month's model", tz=tz)
     if len(HOW_SEEN) == 168:
         I.reach("clause.how_values_168")
     return 8 + 2 + 2
